@@ -1,5 +1,5 @@
 SPECIFICATION Spec
-CONSTANTS MaxItems = 1
+CONSTANTS MaxItems = 2
 INVARIANTS OnlyKnown AddrNonEmpty
 CONSTRAINT Emit
 CHECK_DEADLOCK FALSE
